@@ -1,12 +1,13 @@
 import PGT.Props.C18
 import PGT.Proofs.BuildErrors
+import PGT.Proofs.FuelEnough
 /-
 C18, continued: error propagation at every depth (proofs: `Proofs/BuildErrors.lean`, which builds on `Props/C18.lean`).
 `FailsAt` is a chain of fields below a message, each non-excluded, ending in an unmappable field (type lookup fails, unknown
 message type, non-string map key, map value without attributes); `MsgFailsAt` = some declared field starts such a chain.
 -/
 namespace PGT.Props.C18
-open PGT PGT.Proofs.BuildErrors
+open PGT PGT.Proofs.BuildErrors PGT.Proofs.FuelEnough PGT.Proofs.RequestIndep
 
 theorem C18_field_error_fails_message (fuel : Nat) (cfg : CfgView) (req : Request) (desc : MsgD) (isRoot : Bool) (path : String)
     (f : FieldD) (hf : f ∈ desc.fields)
@@ -104,5 +105,19 @@ theorem C18_fuel_mono (cfg : CfgView) (req : Request) (n k : Nat) :
 /-- the chains are not vacuous: `A.b : B`, `B.c : repeated C`, `C.t : Timestamp` without `time_type` – `A` is never built -/
 theorem C18_witness_never_built (fuel : Nat) : IsErr (buildMessage fuel Witness.cfg0 Witness.req0 Witness.msgA true "") :=
   Witness.A_never_built fuel
+
+-- on acyclic requests the fuel bound of the model is invisible: every failure of a build is a failure chain
+/-- a build error of a root of an acyclic request is witnessed by a failure chain (completeness of `FailsAt`, without the
+fuel-bound alternative of `error_has_chain`) -/
+theorem C18_acyclic_error_has_chain (cfg : CfgView) (req : Request) (hac : Acyclic req = true) (d : MsgD) (hd : d ∈ allMsgs req)
+    (isRoot : Bool) (path : String) (e : BuildError)
+    (h : buildMessage (defaultFuel req) cfg req d isRoot path = .error e) : MsgFailsAt cfg req d isRoot path := by
+  intros; apply PGT.Proofs.FuelEnough.acyclic_error_has_chain <;> assumption
+
+/-- ... and that result is not the fuel bound -/
+theorem C18_fuel_bound_invisible (cfg : CfgView) (req : Request) (hac : Acyclic req = true) (d : MsgD) (hd : d ∈ allMsgs req)
+    (k : Nat) (isRoot : Bool) (path : String) :
+    buildMessage (defaultFuel req + k) cfg req d isRoot path ≠ .error .recursionLimit := by
+  intros; apply PGT.Proofs.FuelEnough.fuel_bound_invisible <;> assumption
 
 end PGT.Props.C18
